@@ -602,7 +602,7 @@ Section Completion.
   Qed.
 End Completion.
 
-(* ---- finish ---------------------------------------------------------------------------- *)
+(* ---- finish (the code BEFORE fix 422cec3: finish_old / run_old) ---------------------------- *)
 Lemma enforce_aw_eq k a r : k <> AKSerial -> acc_wf a -> enforce k a = Some r -> aw r = aw a.
 Proof.
   intros NS W E. destruct k; cbn [enforce] in E.
@@ -615,21 +615,21 @@ Proof.
     rewrite E in E'. injection E' as <-. exact Ar.
 Qed.
 
-Definition finished_wf (L : mlogic) (st' : state) : Prop :=
+Definition finished_wf_old (L : mlogic) (st' : state) : Prop :=
   state_wfb L st' = true /\ acc_wf (s_R st') /\ s_finished st' = true /\
   (ml_access L <> AKSerial -> forall w, In w (aw (s_R st')) -> In w (s_fkeys st')).
 
-Lemma base_finish_cinv L st st1 st' :
-  complete_frames L st = Some st1 -> cinv L st1 -> base_finish L st = Some st' ->
-  finished_wf L st' /\ s_consts st' = s_consts st1 /\ pinv L st'.
+Lemma base_finish_old_cinv L st st1 st' :
+  complete_frames L st = Some st1 -> cinv L st1 -> base_finish_old L st = Some st' ->
+  finished_wf_old L st' /\ s_consts st' = s_consts st1 /\ pinv L st'.
 Proof.
-  intros CF (A & O & P & R & C & F & Sub). unfold base_finish. rewrite CF.
+  intros CF (A & O & P & R & C & F & Sub). unfold base_finish_old. rewrite CF.
   destruct (enforce (ml_access L) (s_R st1)) as [r|] eqn:E; [|discriminate].
   intro H. injection H as <-.
-  match goal with |- finished_wf L ?s /\ _ => assert (P' : pinv L s) end.
+  match goal with |- finished_wf_old L ?s /\ _ => assert (P' : pinv L s) end.
   { apply (pinv_grow L st1); cbn [s_pkeys s_consts s_preds]; auto. }
   split; [|split; [reflexivity|exact P']].
-  unfold finished_wf. cbn [s_R s_finished s_fkeys].
+  unfold finished_wf_old. cbn [s_R s_finished s_fkeys].
   split.
   { apply wfb_of; cbn [s_atoms s_opaqs]; [exact A|exact O|exact P']. }
   split; [eapply enforce_wf; eassumption|]. split; [reflexivity|].
@@ -642,102 +642,66 @@ Proof.
   unfold cinv. rewrite E1, E2, E3, E4, E6, E7. auto 10.
 Qed.
 
-(* common part of finish / finish_fixed *)
-Lemma finish_gen_wf L cord (compl : state -> option state) st st' :
+Lemma finish_old_all L cord pord st st' :
   (ml_classical L = true -> val_ok L VT = true) ->
-  (ml_classical L = true -> forall s1 s2, good L (s_consts st) s1 -> compl s1 = Some s2 ->
-                                          step L (s_consts st) s1 s2) ->
   inv L st -> (forall c, In c cord -> In c (s_consts st)) ->
-  (if ml_classical L then
-     match complete_frames L st with
-     | None => None
-     | Some st1 => match compl st1 with None => None | Some st2 => base_finish L st2 end
-     end
-   else base_finish L st) = Some st' ->
-  finished_wf L st' /\ s_consts st' = s_consts st /\ pinv L st'.
+  finish_old L cord pord st = Some st' ->
+  finished_wf_old L st' /\ s_consts st' = s_consts st /\ pinv L st'.
 Proof.
-  intros HVT Hcompl I Hcord. destruct (ml_classical L) eqn:Cl.
+  intros HVT I Hcord. unfold finish_old. destruct (ml_classical L) eqn:Cl.
   - destruct (complete_frames L st) as [st1|] eqn:CF; [|discriminate].
-    destruct (compl st1) as [st2|] eqn:CC; [|discriminate]. intro BF.
+    destruct (cl_complete cord pord st1) as [st2|] eqn:CC; [|discriminate]. intro BF.
     destruct (complete_frames_cinv L st st1 I CF) as (CI & Ec & _).
     assert (G1 : good L (s_consts st) st1) by (split; [apply CI|exact Ec]).
-    pose proof (Hcompl eq_refl st1 st2 G1 CC) as S.
+    pose proof (cl_complete_step L (s_consts st) cord (HVT eq_refl) Hcord pord st1 st2 G1 CC) as S.
     pose proof (step_cinv _ _ _ _ CI S) as CI2.
     assert (CF2 : complete_frames L st2 = Some st2).
     { apply complete_frames_idem; apply CI2. }
-    destruct (base_finish_cinv L st2 st2 st' CF2 CI2 BF) as (W & Ec' & P').
+    destruct (base_finish_old_cinv L st2 st2 st' CF2 CI2 BF) as (W & Ec' & P').
     split; [exact W|]. split; [|exact P']. rewrite Ec'. apply S.
-  - unfold base_finish at 1. destruct (complete_frames L st) as [st1|] eqn:CF; [|discriminate].
-    intro BF.
+  - intro BF. pose proof BF as BF'. unfold base_finish_old in BF.
+    destruct (complete_frames L st) as [st1|] eqn:CF; [|discriminate].
     destruct (complete_frames_cinv L st st1 I CF) as (CI & Ec & _).
-    assert (BF' : base_finish L st = Some st') by (unfold base_finish; rewrite CF; exact BF).
-    destruct (base_finish_cinv L st st1 st' CF CI BF') as (W & Ec' & P').
+    destruct (base_finish_old_cinv L st st1 st' CF CI BF') as (W & Ec' & P').
     split; [exact W|]. split; [congruence|exact P'].
 Qed.
 
-Lemma finish_all L cord pord st st' :
-  (ml_classical L = true -> val_ok L VT = true) ->
-  inv L st -> (forall c, In c cord -> In c (s_consts st)) ->
-  finish L cord pord st = Some st' ->
-  finished_wf L st' /\ s_consts st' = s_consts st /\ pinv L st'.
-Proof.
-  intros HVT I Hcord H.
-  apply (finish_gen_wf L cord (cl_complete cord pord) st st' HVT); [|exact I|exact Hcord|exact H].
-  intros Cl s1 s2 G1 CC. eapply cl_complete_step; [apply HVT; exact Cl|exact Hcord|exact G1|exact CC].
-Qed.
-
-Lemma finish_fixed_all L cord pord st st' :
-  (ml_classical L = true -> val_ok L VT = true) ->
-  inv L st -> (forall c, In c cord -> In c (s_consts st)) ->
-  finish_fixed L cord pord st = Some st' ->
-  finished_wf L st' /\ s_consts st' = s_consts st /\ pinv L st'.
-Proof.
-  intros HVT I Hcord H.
-  apply (finish_gen_wf L cord (cl_complete_fixed cord pord) st st' HVT); [|exact I|exact Hcord|exact H].
-  intros Cl s1 s2 G1 CC. eapply cl_complete_fixed_step; [apply HVT; exact Cl|exact Hcord|exact G1|exact CC].
-Qed.
-
-Theorem finish_wf L cord pord st st' :
+Theorem finish_old_wf L cord pord st st' :
   vals_closed L = true -> (ml_classical L = true -> val_ok L VT = true) ->
   inv L st -> s_finished st = false ->
   (forall c, In c cord -> In c (s_consts st)) ->
-  finish L cord pord st = Some st' ->
+  finish_old L cord pord st = Some st' ->
   state_wfb L st' = true /\ acc_wf (s_R st') /\ s_finished st' = true /\
   (ml_access L <> AKSerial -> forall w, In w (aw (s_R st')) -> In w (s_fkeys st')).
-Proof. intros _ HVT I _ Hcord H. apply (finish_all L cord pord st st' HVT I Hcord H). Qed.
-Print Assumptions finish_wf.
+Proof. intros _ HVT I _ Hcord H. apply (finish_old_all L cord pord st st' HVT I Hcord H). Qed.
+Print Assumptions finish_old_wf.
 
-Theorem finish_fixed_wf L cord pord st st' :
+Theorem finish_old_wf_ext L cord pord st st' :
+  (ml_classical L = true -> val_ok L VT = true) ->
+  inv L st -> (forall c, In c cord -> In c (s_consts st)) ->
+  finish_old L cord pord st = Some st' ->
+  tuples_ok st' /\ preds_fun st' /\ s_consts st' = s_consts st.
+Proof.
+  intros HVT I Hcord H. destruct (finish_old_all L cord pord st st' HVT I Hcord H) as (_ & Ec & P).
+  split; [eapply pinv_tuples_ok; exact P|]. split; [eapply pinv_preds_fun; exact P|exact Ec].
+Qed.
+
+Corollary run_old_wf L cord pord os st' :
   vals_closed L = true -> (ml_classical L = true -> val_ok L VT = true) ->
-  inv L st -> s_finished st = false ->
-  (forall c, In c cord -> In c (s_consts st)) ->
-  finish_fixed L cord pord st = Some st' ->
+  forallb (op_ok L) os = true ->
+  (forall st, apply_ops L init_state os = Some st -> forall c, In c cord -> In c (s_consts st)) ->
+  run_old L cord pord os = Some st' ->
   state_wfb L st' = true /\ acc_wf (s_R st') /\ s_finished st' = true /\
   (ml_access L <> AKSerial -> forall w, In w (aw (s_R st')) -> In w (s_fkeys st')).
-Proof. intros _ HVT I _ Hcord H. apply (finish_fixed_all L cord pord st st' HVT I Hcord H). Qed.
-Print Assumptions finish_fixed_wf.
-
-(* the remaining hypotheses of classical_okb_of_frame_classical / the export theorems *)
-Theorem finish_wf_ext L cord pord st st' :
-  (ml_classical L = true -> val_ok L VT = true) ->
-  inv L st -> (forall c, In c cord -> In c (s_consts st)) ->
-  finish L cord pord st = Some st' ->
-  tuples_ok st' /\ preds_fun st' /\ s_consts st' = s_consts st.
 Proof.
-  intros HVT I Hcord H. destruct (finish_all L cord pord st st' HVT I Hcord H) as (_ & Ec & P).
-  split; [eapply pinv_tuples_ok; exact P|]. split; [eapply pinv_preds_fun; exact P|exact Ec].
+  intros VC HVT OK Hcord H. unfold run_old in H.
+  destruct (apply_ops L init_state os) as [st|] eqn:E; [|discriminate].
+  pose proof (reachable_inv L os st OK E) as I.
+  eapply finish_old_wf; [exact VC|exact HVT|exact I|apply I|apply Hcord; reflexivity|exact H].
 Qed.
-Theorem finish_fixed_wf_ext L cord pord st st' :
-  (ml_classical L = true -> val_ok L VT = true) ->
-  inv L st -> (forall c, In c cord -> In c (s_consts st)) ->
-  finish_fixed L cord pord st = Some st' ->
-  tuples_ok st' /\ preds_fun st' /\ s_consts st' = s_consts st.
-Proof.
-  intros HVT I Hcord H. destruct (finish_fixed_all L cord pord st st' HVT I Hcord H) as (_ & Ec & P).
-  split; [eapply pinv_tuples_ok; exact P|]. split; [eapply pinv_preds_fun; exact P|exact Ec].
-Qed.
+Print Assumptions run_old_wf.
 
-(* the hypotheses of finish_fixed_classical on the completed state *)
+(* the hypotheses of the classical theorems on the completed state *)
 Theorem complete_frames_wf L st st1 :
   inv L st -> complete_frames L st = Some st1 ->
   tuples_ok st1 /\ id_binary st1 /\ preds_fun st1 /\ s_consts st1 = s_consts st /\
@@ -749,72 +713,427 @@ Proof.
   split; [eapply pinv_preds_fun; exact P|]. auto.
 Qed.
 
-(* ---- every history of calls followed by finish() ----------------------------------------- *)
+(* ---- finish (current code: pre_complete / base_finish / ClassicalFix.finish) ----------------- *)
+(* what a forced _complete_frames needs (weaker than inv) and what it gives *)
+Definition winv (L : mlogic) (st : state) : Prop :=
+  atoms_fun (s_atoms st) /\ opaqs_fun L (s_opaqs st) /\ pinv L st /\ acc_wf (s_R st) /\
+  s_finished st = false /\ s_complete st = false.
+Definition cinv2 (L : mlogic) (st : state) : Prop :=
+  atoms_fun (s_atoms st) /\ opaqs_fun L (s_opaqs st) /\ pinv L st /\ acc_wf (s_R st) /\
+  s_complete st = true /\ s_finished st = false /\
+  (forall w, In w (aw (s_R st)) <-> In w (s_fkeys st)).
+
+Lemma inv_winv L st : inv L st -> winv L st.
+Proof. intros (A & O & P & B & R & F & C). unfold winv. auto 10. Qed.
+
+Lemma complete_frames_gen L st st1 :
+  winv L st -> complete_frames L st = Some st1 ->
+  cinv2 L st1 /\ s_consts st1 = s_consts st /\ s_preds st1 = s_preds st /\
+  ap (s_R st1) = ap (s_R st) /\
+  (forall w, In w (s_fkeys st1) <-> In w (s_fkeys st) \/ In w (aw (s_R st))) /\
+  s_R st1 = fold_left acc_touch (s_fkeys st1) (s_R st).
+Proof.
+  intros (A & O & P & R & F & C). unfold complete_frames. rewrite F, C.
+  set (fk := fold_left (fun l w => addn w l) (aw (s_R st)) (s_fkeys st)).
+  destruct (negb (forallb (frame_ok L) fk)); [discriminate|].
+  cbv zeta. intro H. injection H as <-.
+  unfold cinv2. cbn [s_atoms s_opaqs s_R s_finished s_complete s_fkeys s_consts s_preds].
+  destruct (fold_touch_spec fk (s_R st) R) as (W1 & W2 & W3).
+  assert (Hfk : forall w, In w fk <-> In w (s_fkeys st) \/ In w (aw (s_R st))).
+  { intro w. unfold fk. apply fold_addn_in. }
+  split; [|auto 10]. split; [apply fill_atoms_fun; exact A|].
+  split.
+  { apply fill_opaqs_fun; [|exact O]. intros s Hs. apply known_opaques_in in Hs.
+    destruct Hs as (w & v & Hin). apply (O _ _ _ Hin). }
+  split.
+  { apply (pinv_grow L st); cbn [s_pkeys s_consts s_preds]; auto.
+    intros k Hk. apply fill_pkeys_in. left; exact Hk. }
+  split; [exact W1|]. split; [reflexivity|]. split; [reflexivity|].
+  intros w. rewrite W3, Hfk. tauto.
+Qed.
+
+Lemma fold_touch_id l : forall a, (forall x, In x l -> In x (aw a)) -> fold_left acc_touch l a = a.
+Proof.
+  induction l as [|x r IH]; intros a H; cbn [fold_left]; [reflexivity|].
+  assert (E : acc_touch a x = a).
+  { unfold acc_touch. rewrite addw_id by (apply H; left; reflexivity). destruct a; reflexivity. }
+  rewrite E. apply IH. intros y Hy. apply H. right; exact Hy.
+Qed.
+
+(* the relation was produced by enforce() *)
+Definition enforced (k : akind) (r : access) : Prop := exists a, acc_wf a /\ enforce k a = Some r.
+
+(* R.enforce(); _is_frame_complete = False; _complete_frames() on a completed state *)
+Lemma second_half L st1 r st2 :
+  cinv2 L st1 -> enforce (ml_access L) (s_R st1) = Some r ->
+  complete_frames L (set_flags (with_R st1 r) false (s_finished st1)) = Some st2 ->
+  cinv2 L st2 /\ s_consts st2 = s_consts st1 /\ s_preds st2 = s_preds st1 /\ s_R st2 = r /\
+  (forall w, In w (s_fkeys st2) <-> In w (aw r)).
+Proof.
+  intros (A & O & P & R & C & F & Iff) E CF.
+  assert (Wr : acc_wf r) by (eapply enforce_wf; eassumption).
+  assert (WI : winv L (set_flags (with_R st1 r) false (s_finished st1))).
+  { unfold winv, set_flags, with_R. cbn [s_atoms s_opaqs s_R s_finished s_complete].
+    split; [exact A|]. split; [exact O|]. split; [apply (pinv_grow L st1); auto|]. auto. }
+  destruct (complete_frames_gen _ _ _ WI CF) as (CI & Ec & Ep & _ & Hfk & ER).
+  cbn [set_flags with_R s_consts s_preds s_fkeys s_R] in Ec, Ep, Hfk, ER.
+  assert (Hfk' : forall w, In w (s_fkeys st2) <-> In w (aw r)).
+  { intro w. rewrite Hfk. split; [|auto]. intros [H|H]; [|exact H].
+    eapply enforce_worlds_mono; [exact R|exact E|]. apply Iff. exact H. }
+  split; [exact CI|]. split; [exact Ec|]. split; [exact Ep|]. split; [|exact Hfk'].
+  rewrite ER. apply fold_touch_id. intros x Hx. apply Hfk'. exact Hx.
+Qed.
+
+Lemma pre_complete_winv L st st2 :
+  winv L st -> pre_complete L st = Some st2 ->
+  cinv2 L st2 /\ s_consts st2 = s_consts st /\ s_preds st2 = s_preds st /\
+  exists st1, complete_frames L st = Some st1 /\ enforce (ml_access L) (s_R st1) = Some (s_R st2) /\
+              acc_wf (s_R st1) /\ ap (s_R st1) = ap (s_R st) /\
+              (forall w, In w (aw (s_R st1)) <-> In w (s_fkeys st) \/ In w (aw (s_R st))).
+Proof.
+  intros WI. unfold pre_complete.
+  destruct (complete_frames L st) as [st1|] eqn:CF; [|discriminate].
+  destruct (enforce (ml_access L) (s_R st1)) as [r|] eqn:E; [|discriminate]. intro CF2.
+  destruct (complete_frames_gen _ _ _ WI CF) as (CI & Ec & Ep & Eap & Hfk & _).
+  destruct (second_half L st1 r st2 CI E CF2) as (CI2 & Ec2 & Ep2 & ER & _).
+  split; [exact CI2|]. split; [congruence|]. split; [congruence|].
+  exists st1. split; [reflexivity|]. split; [rewrite ER; exact E|].
+  destruct CI as (_ & _ & _ & R1 & _ & _ & Iff1).
+  split; [exact R1|]. split; [exact Eap|]. intro w. rewrite Iff1. apply Hfk.
+Qed.
+
+Lemma pre_complete_cinv2 L st st2 :
+  cinv2 L st -> pre_complete L st = Some st2 ->
+  cinv2 L st2 /\ s_consts st2 = s_consts st /\ s_preds st2 = s_preds st /\
+  enforce (ml_access L) (s_R st) = Some (s_R st2) /\
+  (forall w, In w (s_fkeys st2) <-> In w (aw (s_R st2))).
+Proof.
+  intros CI. unfold pre_complete.
+  assert (CF : complete_frames L st = Some st) by (apply complete_frames_idem; apply CI).
+  rewrite CF.
+  destruct (enforce (ml_access L) (s_R st)) as [r|] eqn:E; [|discriminate]. intro CF2.
+  destruct (second_half L st r st2 CI E CF2) as (CI2 & Ec2 & Ep2 & ER & Hfk).
+  split; [exact CI2|]. split; [exact Ec2|]. split; [exact Ep2|].
+  rewrite ER. split; [reflexivity|exact Hfk].
+Qed.
+
+(* a second enforce() on an enforced relation adds no world *)
+Lemma enforce_again_aw k a r r' :
+  acc_wf a -> enforce k a = Some r -> enforce k r = Some r' -> forall w, In w (aw r') -> In w (aw r).
+Proof.
+  intros W E E' w Hw. assert (Wr : acc_wf r) by (eapply enforce_wf; eassumption).
+  destruct k.
+  - cbn [enforce] in E'. injection E' as <-. exact Hw.
+  - cbn [enforce] in E, E'. injection E as <-. injection E' as <-.
+    destruct (serial_enforce_spec a W) as (_ & Hs & _).
+    rewrite serial_enforce_id in Hw; [exact Hw|].
+    intros x Hx. destruct (dead_end (serial_enforce a) x) eqn:D; [|reflexivity].
+    destruct (Hs x Hx) as [v Hv]. exfalso. exact (proj1 (dead_end_true _ _) D v Hv).
+  - rewrite (enforce_aw_eq AKRefl r r') in Hw; [exact Hw|discriminate|exact Wr|exact E'].
+  - rewrite (enforce_aw_eq AKReflTrans r r') in Hw; [exact Hw|discriminate|exact Wr|exact E'].
+  - rewrite (enforce_aw_eq AKGlobal r r') in Hw; [exact Hw|discriminate|exact Wr|exact E'].
+Qed.
+
+Definition finished_wf (L : mlogic) (st' : state) : Prop :=
+  state_wfb L st' = true /\ acc_wf (s_R st') /\ s_finished st' = true /\
+  (forall w, In w (aw (s_R st')) <-> In w (s_fkeys st')).
+
+Lemma set_flags_finished L st2 :
+  cinv2 L st2 -> finished_wf L (set_flags st2 true true) /\ pinv L (set_flags st2 true true).
+Proof.
+  intros (A & O & P & R & C & F & Iff).
+  assert (P' : pinv L (set_flags st2 true true)) by (apply (pinv_grow L st2); auto).
+  split; [|exact P']. unfold finished_wf. cbn [set_flags s_R s_finished s_fkeys].
+  split; [apply wfb_of; [exact A|exact O|exact P']|]. auto.
+Qed.
+
+Lemma step_cinv2 L cs st1 st2 : cinv2 L st1 -> step L cs st1 st2 -> cinv2 L st2.
+Proof.
+  intros (A & O & _ & R & C & F & Iff) [[P _] (E1 & E2 & E3 & E4 & E5 & E6 & E7)].
+  unfold cinv2. rewrite E1, E2, E3, E4, E6, E7. auto 10.
+Qed.
+
+(* everything the later theorems use about finish, in one place *)
+Lemma finish_all L cord pord st st' :
+  (ml_classical L = true -> val_ok L VT = true) -> inv L st ->
+  (forall c, In c cord -> In c (s_consts st)) ->
+  finish L cord pord st = Some st' ->
+  finished_wf L st' /\ s_consts st' = s_consts st /\ pinv L st' /\
+  (ml_classical L = false ->
+     exists st2, pre_complete L st = Some st2 /\ st' = set_flags st2 true true) /\
+  (ml_classical L = true ->
+     exists st2 st3 st4, pre_complete L st = Some st2 /\ cl_complete_fixed cord pord st2 = Some st3 /\
+       pre_complete L st3 = Some st4 /\ st' = set_flags st4 true true /\
+       cinv2 L st2 /\ s_preds st2 = s_preds st /\ s_consts st2 = s_consts st /\
+       s_R st3 = s_R st2 /\ s_fkeys st3 = s_fkeys st2 /\
+       s_preds st4 = s_preds st3 /\ s_consts st4 = s_consts st3 /\
+       enforce (ml_access L) (s_R st3) = Some (s_R st4) /\
+       (forall w, In w (s_fkeys st4) <-> In w (s_fkeys st2))).
+Proof.
+  intros HVT I Hcord. unfold finish. destruct (ml_classical L) eqn:Cl.
+  - destruct (pre_complete L st) as [st2|] eqn:PC; [|discriminate].
+    destruct (cl_complete_fixed cord pord st2) as [st3|] eqn:CC; [|discriminate].
+    unfold base_finish. destruct (pre_complete L st3) as [st4|] eqn:PC2; [|discriminate].
+    intro H. injection H as <-.
+    destruct (pre_complete_winv L st st2 (inv_winv L st I) PC) as (CI2 & Ec2 & Ep2 & st1 & CF1 & E1 & W1 & _).
+    assert (G2 : good L (s_consts st) st2) by (split; [apply CI2|exact Ec2]).
+    pose proof (cl_complete_fixed_step L (s_consts st) cord (HVT eq_refl) Hcord pord st2 st3 G2 CC) as S.
+    pose proof (step_cinv2 _ _ _ _ CI2 S) as CI3.
+    destruct (pre_complete_cinv2 L st3 st4 CI3 PC2) as (CI4 & Ec4 & Ep4 & E3 & Hfk4).
+    destruct (set_flags_finished L st4 CI4) as (FW & P').
+    destruct S as [[_ Ec3] (F1 & _ & _ & F4 & _)].
+    split; [exact FW|]. split; [cbn [set_flags s_consts]; congruence|]. split; [exact P'|].
+    split; [discriminate|]. intros _. exists st2, st3, st4.
+    repeat (split; [first [reflexivity|assumption]|]).
+    intro w. rewrite Hfk4.
+    destruct CI2 as (_ & _ & _ & _ & _ & _ & Iff2). rewrite <- Iff2, <- F4. split.
+    + apply (enforce_again_aw _ _ _ _ W1 (eq_trans E1 (f_equal Some (eq_sym F4))) E3).
+    + destruct CI3 as (_ & _ & _ & R3 & _). apply (enforce_worlds_mono _ _ _ R3 E3).
+  - unfold base_finish. destruct (pre_complete L st) as [st2|] eqn:PC; [|discriminate].
+    intro H. injection H as <-.
+    destruct (pre_complete_winv L st st2 (inv_winv L st I) PC) as (CI2 & Ec2 & Ep2 & _).
+    destruct (set_flags_finished L st2 CI2) as (FW & P').
+    split; [exact FW|]. split; [exact Ec2|]. split; [exact P'|].
+    split; [|discriminate]. intros _. exists st2. auto.
+Qed.
+
+Theorem finish_wf L cord pord st st' :
+  (ml_classical L = true -> val_ok L VT = true) -> inv L st ->
+  (forall c, In c cord -> In c (s_consts st)) ->
+  finish L cord pord st = Some st' ->
+  finished_wf L st' /\ s_consts st' = s_consts st /\ tuples_ok st' /\ preds_fun st'.
+Proof.
+  intros HVT I Hcord H. destruct (finish_all L cord pord st st' HVT I Hcord H) as (FW & Ec & P & _).
+  split; [exact FW|]. split; [exact Ec|].
+  split; [eapply pinv_tuples_ok; exact P|eapply pinv_preds_fun; exact P].
+Qed.
+Print Assumptions finish_wf.
+
 Corollary run_wf L cord pord os st' :
-  vals_closed L = true -> (ml_classical L = true -> val_ok L VT = true) ->
+  (ml_classical L = true -> val_ok L VT = true) ->
   forallb (op_ok L) os = true ->
   (forall st, apply_ops L init_state os = Some st -> forall c, In c cord -> In c (s_consts st)) ->
   run L cord pord os = Some st' ->
-  state_wfb L st' = true /\ acc_wf (s_R st') /\ s_finished st' = true /\
-  (ml_access L <> AKSerial -> forall w, In w (aw (s_R st')) -> In w (s_fkeys st')).
+  finished_wf L st' /\ tuples_ok st' /\ preds_fun st'.
 Proof.
-  intros VC HVT OK Hcord H. unfold run in H.
+  intros HVT OK Hcord H. unfold run in H.
   destruct (apply_ops L init_state os) as [st|] eqn:E; [|discriminate].
   pose proof (reachable_inv L os st OK E) as I.
-  eapply finish_wf; [exact VC|exact HVT|exact I|apply I|apply Hcord; reflexivity|exact H].
+  destruct (finish_wf L cord pord st st' HVT I (Hcord st eq_refl) H) as (FW & _ & T & PF). auto.
 Qed.
 Print Assumptions run_wf.
 
-Corollary run_fixed_wf L cord pord os st' :
-  vals_closed L = true -> (ml_classical L = true -> val_ok L VT = true) ->
-  forallb (op_ok L) os = true ->
-  (forall st, apply_ops L init_state os = Some st -> forall c, In c cord -> In c (s_consts st)) ->
-  run_fixed L cord pord os = Some st' ->
-  state_wfb L st' = true /\ acc_wf (s_R st') /\ s_finished st' = true /\
-  (ml_access L <> AKSerial -> forall w, In w (aw (s_R st')) -> In w (s_fkeys st')).
-Proof.
-  intros VC HVT OK Hcord H. unfold run_fixed in H.
-  destruct (apply_ops L init_state os) as [st|] eqn:E; [|discriminate].
-  pose proof (reachable_inv L os st OK E) as I.
-  eapply finish_fixed_wf; [exact VC|exact HVT|exact I|apply I|apply Hcord; reflexivity|exact H].
-Qed.
-Print Assumptions run_fixed_wf.
+(* ---- the classical completion at the level of finish ------------------------------------- *)
+Lemma frame_classical_same st st' w :
+  s_preds st' = s_preds st -> s_consts st' = s_consts st -> frame_classical st w -> frame_classical st' w.
+Proof. intros Ep Ec H. unfold frame_classical, idT, predT in *. rewrite Ep, Ec. exact H. Qed.
 
-(* every history of calls followed by the repaired finish(): the model is well
-   formed AND classical in every frame (iteration orders: cord enumerates the
-   constants, pord covers the registered predicates) *)
-Corollary run_fixed_classical_wf L cord pord os st st1 st' :
-  ml_classical L = true -> val_ok L VT = true ->
-  forallb (op_ok L) os = true ->
-  apply_ops L init_state os = Some st -> complete_frames L st = Some st1 ->
-  (forall c, In c cord <-> In c (s_consts st)) -> pord_covers pord st1 ->
-  run_fixed L cord pord os = Some st' ->
+Theorem finish_classical L cord pord st st2 st' :
+  ml_classical L = true -> val_ok L VT = true -> inv L st ->
+  pre_complete L st = Some st2 ->
+  (forall c, In c cord <-> In c (s_consts st)) -> pord_covers pord st2 ->
+  finish L cord pord st = Some st' ->
   (forall w, In w (s_fkeys st') -> frame_classical st' w) /\ classical_okb st' = true /\
-  state_wfb L st' = true /\ acc_wf (s_R st') /\ s_finished st' = true.
+  finished_wf L st'.
 Proof.
-  intros Cl HVT OK E CF Hcord Hpc H. unfold run_fixed in H. rewrite E in H.
-  pose proof (reachable_inv L os st OK E) as I.
-  destruct (complete_frames_wf L st st1 I CF) as (T1 & B1 & _ & Ec & _).
-  assert (Hcord1 : forall c, In c cord <-> In c (s_consts st1)) by (intro c; rewrite Ec; apply Hcord).
-  destruct (finish_fixed_classical L cord pord st st1 st' Cl CF T1 B1 Hcord1 Hpc H) as (FC & _).
+  intros Cl HVT I PC Hcord Hpc H.
   assert (Hsub : forall c, In c cord -> In c (s_consts st)) by (intros c Hc; apply Hcord; exact Hc).
-  destruct (finish_fixed_all L cord pord st st' (fun _ => HVT) I Hsub H) as ((W & R & F & _) & _ & P).
-  split; [exact FC|]. split; [|auto].
+  destruct (finish_all L cord pord st st' (fun _ => HVT) I Hsub H) as (FW & Ec & P & _ & HC).
+  destruct (HC Cl) as (st2' & st3 & st4 & PC' & CC & PC2 & Est & CI2 & Ep2 & Ec2 & ER3 & Ef3 & Ep4 & Ec4 & E3 & Hfk).
+  rewrite PC in PC'. injection PC' as <-.
+  assert (T2 : tuples_ok st2) by (eapply pinv_tuples_ok; apply CI2).
+  assert (B2 : id_binary st2) by (apply (id_binary_same st); [exact Ep2|apply I]).
+  assert (Hcord2 : forall c, In c cord <-> In c (s_consts st2)) by (intro c; rewrite Ec2; apply Hcord).
+  destruct (classical_finish_repaired cord pord st2 st3 T2 B2 Hcord2 Hpc CC) as (FC & _).
+  assert (FC' : forall w, In w (s_fkeys st') -> frame_classical st' w).
+  { intros w Hw. subst st'. cbn [set_flags s_fkeys] in Hw.
+    apply (frame_classical_same st3); [exact Ep4|exact Ec4|]. apply FC. apply Hfk. exact Hw. }
+  split; [exact FC'|]. split; [|exact FW].
   apply classical_okb_of_frame_classical;
-    [eapply pinv_tuples_ok; exact P|eapply pinv_preds_fun; exact P|exact FC].
+    [eapply pinv_tuples_ok; exact P|eapply pinv_preds_fun; exact P|exact FC'].
 Qed.
-Print Assumptions run_fixed_classical_wf.
+Print Assumptions finish_classical.
+
+Corollary run_classical_wf L cord pord os st st2 st' :
+  ml_classical L = true -> val_ok L VT = true -> forallb (op_ok L) os = true ->
+  apply_ops L init_state os = Some st -> pre_complete L st = Some st2 ->
+  (forall c, In c cord <-> In c (s_consts st)) -> pord_covers pord st2 ->
+  run L cord pord os = Some st' ->
+  (forall w, In w (s_fkeys st') -> frame_classical st' w) /\ classical_okb st' = true /\
+  finished_wf L st'.
+Proof.
+  intros Cl HVT OK E PC Hcord Hpc H. unfold run in H. rewrite E in H.
+  exact (finish_classical L cord pord st st2 st' Cl HVT (reachable_inv L os st OK E) PC Hcord Hpc H).
+Qed.
+Print Assumptions run_classical_wf.
 
 (* non-vacuity: the hypotheses hold of the witness history of ClassicalFix.v *)
 Example reach_nonvacuous :
-  vals_closed ML_cfol = true /\ val_ok ML_cfol VT = true /\
-  forallb (op_ok ML_cfol) wit_chain = true /\
-  exists st st', apply_ops ML_cfol init_state wit_chain = Some st /\
+  val_ok ML_cfol VT = true /\ forallb (op_ok ML_cfol) wit_chain = true /\
+  exists st st2 st', apply_ops ML_cfol init_state wit_chain = Some st /\
+                 pre_complete ML_cfol st = Some st2 /\
                  (forall c, In c [2; 0; 1] <-> In c (s_consts st)) /\
-                 run_fixed ML_cfol [2; 0; 1] all_pord wit_chain = Some st'.
+                 pord_covers all_pord st2 /\
+                 run ML_cfol [2; 0; 1] all_pord wit_chain = Some st'.
 Proof.
   split; [vm_compute; reflexivity|]. split; [vm_compute; reflexivity|].
-  split; [vm_compute; reflexivity|]. eexists. eexists.
-  split; [vm_compute; reflexivity|]. split; [|vm_compute; reflexivity].
-  intro c. cbn. intuition.
+  eexists. eexists. eexists.
+  split; [vm_compute; reflexivity|]. split; [vm_compute; reflexivity|].
+  split; [intro c; cbn; intuition|]. split; [|vm_compute; reflexivity].
+  intros w p Hin. cbn in Hin. unfold all_pord. cbn.
+  repeat (destruct Hin as [Hin|Hin]; [injection Hin as <- <-; auto|]). destruct Hin.
 Qed.
+
+(* ---- the final access relation is exactly the closure of the initial one ------------------ *)
+From Coq Require Import Relations.
+
+Definition enf_spec (k : akind) (W : nat -> Prop) (R : nat -> nat -> Prop) (x y : nat) : Prop :=
+  match k with
+  | AKAny => R x y
+  | AKRefl => R x y \/ (x = y /\ W x)
+  | AKReflTrans => W x /\ clos_refl_trans nat R x y
+  | AKGlobal => W x /\ clos_refl_sym_trans nat R x y
+  | AKSerial => True
+  end.
+
+Lemma enf_spec_ext k (W W' : nat -> Prop) R x y :
+  (forall z, W z <-> W' z) -> enf_spec k W R x y <-> enf_spec k W' R x y.
+Proof. intro H. destruct k; cbn [enf_spec]; try tauto; rewrite (H x); tauto. Qed.
+
+Lemma enforce_pairs k a r : k <> AKSerial -> acc_wf a -> enforce k a = Some r ->
+  forall x y, In (x, y) (ap r) <-> enf_spec k (fun z => In z (aw a)) (accR a) x y.
+Proof.
+  intros NS W E x y. destruct k; cbn [enforce enf_spec] in *.
+  - injection E as <-. unfold accR. tauto.
+  - exfalso. apply NS. reflexivity.
+  - injection E as <-. apply refl_enforce_ap.
+  - destruct (rt_enforce_spec_rt a W) as (r' & E' & _ & _ & Hr).
+    rewrite E in E'. injection E' as <-. apply Hr.
+  - destruct (global_enforce_spec_eq a W) as (r' & E' & _ & _ & Hr).
+    rewrite E in E'. injection E' as <-. apply Hr.
+Qed.
+
+(* enforce is idempotent as a relation *)
+Lemma enforce_twice_pairs k a r r' : k <> AKSerial -> acc_wf a ->
+  enforce k a = Some r -> enforce k r = Some r' ->
+  forall x y, In (x, y) (ap r') <-> In (x, y) (ap r).
+Proof.
+  intros NS W E E' x y. assert (Wr : acc_wf r) by (eapply enforce_wf; eassumption).
+  pose proof (enforce_aw_eq k a r NS W E) as Ea.
+  pose proof (enforce_pairs k a r NS W E) as S1.
+  rewrite (enforce_pairs k r r' NS Wr E'). rewrite Ea.
+  destruct k; cbn [enf_spec] in *.
+  - unfold accR. tauto.
+  - tauto.
+  - unfold accR at 1. split; [|auto]. intros [H|[<- H]]; [exact H|]. apply S1. right. auto.
+  - rewrite (S1 x y).
+    rewrite (clos_rt_sandwich (accR a) (accR r)); [tauto| |].
+    + intros u v H. apply S1. split; [apply (W _ _ H)|apply rt_step; exact H].
+    + intros u v H. apply S1 in H. apply H.
+  - rewrite (S1 x y).
+    rewrite (clos_rst_sandwich (accR a) (accR r)); [tauto| |].
+    + intros u v H. apply S1. split; [apply (W _ _ H)|apply rst_step; exact H].
+    + intros u v H. apply S1 in H. apply H.
+Qed.
+
+Lemma serial_enforce_again a : acc_wf a -> serial_enforce (serial_enforce a) = serial_enforce a.
+Proof.
+  intro W. destruct (serial_enforce_spec a W) as (_ & Hs & _).
+  apply serial_enforce_id. intros x Hx.
+  destruct (dead_end (serial_enforce a) x) eqn:D; [|reflexivity].
+  destruct (Hs x Hx) as [v Hv]. exfalso. exact (proj1 (dead_end_true _ _) D v Hv).
+Qed.
+
+(* R after finish = enforce (twice for the classical family) of the relation with the
+   pairs of the initial R over the worlds W0 = worlds of R or of frames *)
+Lemma finish_R L cord pord st st' :
+  (ml_classical L = true -> val_ok L VT = true) -> inv L st ->
+  (forall c, In c cord -> In c (s_consts st)) ->
+  finish L cord pord st = Some st' ->
+  exists a1 r1, acc_wf a1 /\ ap a1 = ap (s_R st) /\
+    (forall w, In w (aw a1) <-> In w (s_fkeys st) \/ In w (aw (s_R st))) /\
+    enforce (ml_access L) a1 = Some r1 /\
+    (s_R st' = r1 \/ enforce (ml_access L) r1 = Some (s_R st')).
+Proof.
+  intros HVT I Hcord H.
+  destruct (finish_all L cord pord st st' HVT I Hcord H) as (_ & _ & _ & HN & HC).
+  destruct (ml_classical L) eqn:Cl.
+  - destruct (HC eq_refl) as (st2 & st3 & st4 & PC & _ & _ & -> & _ & _ & _ & ER3 & _ & _ & _ & E3 & _).
+    destruct (pre_complete_winv L st st2 (inv_winv L st I) PC) as (_ & _ & _ & st1 & _ & E1 & W1 & Eap & Haw).
+    exists (s_R st1), (s_R st2). repeat (split; [assumption|]).
+    right. cbn [set_flags s_R]. rewrite <- ER3. exact E3.
+  - destruct (HN eq_refl) as (st2 & PC & ->).
+    destruct (pre_complete_winv L st st2 (inv_winv L st I) PC) as (_ & _ & _ & st1 & _ & E1 & W1 & Eap & Haw).
+    exists (s_R st1), (s_R st2). repeat (split; [assumption|]).
+    left. reflexivity.
+Qed.
+
+Definition W0 (st : state) (x : nat) : Prop := In x (aw (s_R st)) \/ In x (s_fkeys st).
+
+Theorem finish_access_spec L cord pord st st' :
+  (ml_classical L = true -> val_ok L VT = true) -> inv L st ->
+  (forall c, In c cord -> In c (s_consts st)) ->
+  finish L cord pord st = Some st' -> ml_access L <> AKSerial ->
+  forall x y, In (x, y) (ap (s_R st')) <-> enf_spec (ml_access L) (W0 st) (accR (s_R st)) x y.
+Proof.
+  intros HVT I Hcord H NS x y.
+  destruct (finish_R L cord pord st st' HVT I Hcord H) as (a1 & r1 & W1 & Eap & Haw & E1 & Hfin).
+  assert (S1 : In (x, y) (ap r1) <-> enf_spec (ml_access L) (W0 st) (accR (s_R st)) x y).
+  { rewrite (enforce_pairs _ a1 r1 NS W1 E1). unfold accR. rewrite Eap.
+    apply enf_spec_ext. intro z. rewrite Haw. unfold W0. tauto. }
+  destruct Hfin as [->|E2]; [exact S1|].
+  rewrite (enforce_twice_pairs _ a1 r1 (s_R st') NS W1 E1 E2). exact S1.
+Qed.
+
+Theorem finish_access_exact L cord pord st st' :
+  (ml_classical L = true -> val_ok L VT = true) -> inv L st ->
+  (forall c, In c cord -> In c (s_consts st)) ->
+  finish L cord pord st = Some st' ->
+  (ml_access L = AKAny -> forall x y, In (x, y) (ap (s_R st')) <-> In (x, y) (ap (s_R st))) /\
+  (ml_access L = AKRefl -> forall x y,
+     In (x, y) (ap (s_R st')) <-> In (x, y) (ap (s_R st)) \/ (x = y /\ W0 st x)) /\
+  (ml_access L = AKReflTrans -> forall x y,
+     In (x, y) (ap (s_R st')) <-> W0 st x /\ clos_refl_trans nat (accR (s_R st)) x y) /\
+  (ml_access L = AKGlobal -> forall x y,
+     In (x, y) (ap (s_R st')) <-> W0 st x /\ clos_refl_sym_trans nat (accR (s_R st)) x y).
+Proof.
+  intros HVT I Hcord H.
+  pose proof (finish_access_spec L cord pord st st' HVT I Hcord H) as S.
+  (split; [|split; [|split]]); intros E x y; (rewrite S; [|rewrite E; discriminate]); rewrite E; cbn [enf_spec];
+    unfold accR; tauto.
+Qed.
+Print Assumptions finish_access_exact.
+
+(* SerialAccess: after finish every world has a frame and a successor; at most one
+   world (S (max W0)) was added *)
+Theorem finish_serial_total L cord pord st st' :
+  (ml_classical L = true -> val_ok L VT = true) -> inv L st ->
+  (forall c, In c cord -> In c (s_consts st)) ->
+  finish L cord pord st = Some st' -> ml_access L = AKSerial ->
+  (forall w, In w (s_fkeys st') -> exists v, In (w, v) (ap (s_R st')) /\ In v (s_fkeys st')) /\
+  (forall w, W0 st w -> In w (s_fkeys st')) /\
+  (exists n, (forall w, W0 st w -> w < n) /\ forall w, In w (s_fkeys st') -> W0 st w \/ w = n) /\
+  (forall x y, In (x, y) (ap (s_R st)) -> In (x, y) (ap (s_R st'))).
+Proof.
+  intros HVT I Hcord H ES.
+  destruct (finish_all L cord pord st st' HVT I Hcord H) as ((_ & WR & _ & Iff) & _).
+  destruct (finish_R L cord pord st st' HVT I Hcord H) as (a1 & r1 & W1 & Eap & Haw & E1 & Hfin).
+  rewrite ES in E1, Hfin. cbn [enforce] in E1, Hfin. injection E1 as <-.
+  assert (ER : s_R st' = serial_enforce a1).
+  { destruct Hfin as [E|E]; [exact E|]. injection E as <-. apply serial_enforce_again. exact W1. }
+  destruct (serial_enforce_spec a1 W1) as (_ & Hs & Hw & Hp).
+  split; [|split; [|split]].
+  - intros w Hw'. apply Iff in Hw'. rewrite ER in Hw'. destruct (Hs w Hw') as [v Hv].
+    exists v. rewrite ER. split; [exact Hv|]. apply Iff. rewrite ER.
+    destruct (serial_enforce_spec a1 W1) as (Wr & _). apply (Wr _ _ Hv).
+  - intros w Hw0. apply Iff. rewrite ER. apply Hw. left. apply Haw. unfold W0 in Hw0. tauto.
+  - exists (S (list_max (aw a1))). split.
+    + intros w Hw0. assert (Hin : In w (aw a1)) by (apply Haw; unfold W0 in Hw0; tauto).
+      pose proof (proj1 (list_max_le (aw a1) (list_max (aw a1))) (le_n _)) as HF.
+      rewrite Forall_forall in HF. specialize (HF w Hin). lia.
+    + intros w Hw'. apply Iff in Hw'. rewrite ER in Hw'. apply Hw in Hw'.
+      destruct Hw' as [Hw'|[-> _]]; [left|right; reflexivity].
+      apply Haw in Hw'. unfold W0. tauto.
+  - intros x y Hxy. rewrite ER. apply Hp. left. rewrite Eap. exact Hxy.
+Qed.
+Print Assumptions finish_serial_total.
